@@ -398,8 +398,18 @@ Print Assumptions C04_sim_run_ticks.
    With the vocabulary of C04_kill_justified ([act1] / [cons1]: after the own-limit kills, [vs]: the victims of the
    pool-level loop in kill order): the usage figures are the exact sums, the pool-level loop ran only if the usage
    exceeded the pool AND RAM overcommit is on, and the failed container [c] was above its own allocation, or
-   (overcommit) was killed while the usage that remained after the earlier victims still exceeded the pool *)
-From Eudoxia Require Import Proofs.LedgerFacts Proofs.SimTimelineFacts Proofs.AuditRepairFacts.
+   (overcommit) was killed while the usage that remained after the earlier victims still exceeded the pool.
+   [vs], [next] and [res] are tied to the run (audit D P2, P5; the same links as C11_sim_kills):
+     the ids of [act4] are distinct; the ids of [vs] are the first [k] of the killer's candidate order over [act1];
+     [act5] IS [act1] with exactly the containers of [vs] killed ([kill_if (map c_id vs)]), and the ids that step 2
+     killed ([ids_killed act1 act5]) are the ids of [vs] - so a container that survives the tick is not in [vs], and
+     with [Forall (fun v => In v act4 /\ ..) vs] the list [vs] is a function of [act4] and [k]
+     (AuditRepairFacts2.victims_determined);
+     every result of the pool tick is a result of the simulator tick ([incl res (tl_results lg)]), which pins the
+     ids of the containers created in the tick, hence [next], whenever one of them leaves in the tick.
+   Both are shown on the audit's own witness ticks below (C04_sim_kill_justified_forces_victims / _forces_counter) *)
+From Eudoxia Require Import Proofs.LedgerFacts Proofs.SimTimelineFacts Proofs.AuditRepairFacts
+  Proofs.AuditRepairFacts2.
 
 Theorem C04_sim_kill_justified : forall C a np cpu ram,
   (forall x, (cf_rnd C x == x)%Q) -> script_nonneg C -> (0 <= ram)%Q ->
@@ -412,16 +422,21 @@ Theorem C04_sim_kill_justified : forall C a np cpu ram,
     let asgs := filter (fun x => (a_pool x =? Z.of_nat (p_id p))%Z) (tl_asgs lg) in
     nth_error (e_pools (sm_exec s)) i = Some p /\ nth_error (e_pools (sm_exec s')) i = Some p' /\
     (e_next (sm_exec s) <= next)%nat /\
-    pool_tick C w next p ss asgs = Ok (w', next', p', res) /\ In r res /\
-    exists act2 w3 cons3 w4 cons4 act4 w1 cons1 act1 cons5 act5 vs,
+    pool_tick C w next p ss asgs = Ok (w', next', p', res) /\ In r res /\ incl res (tl_results lg) /\
+    exists act2 w3 cons3 w4 cons4 act4 w1 cons1 act1 cons5 act5 vs k,
       act2 = filter (fun c => negb (memb (c_id c) (map su_cid ss))) (p_active p) ++ new_containers next asgs /\
       act4 = map (cstep C) act2 /\
       tick_active C w3 cons3 act2 = Ok (w4, cons4, act4) /\
+      NoDup (map c_id act4) /\
       oom_killer C (p_max_ram p) w4 cons4 act4 = Ok (w', cons5, act5) /\
       p_active p' = filter (fun c => negb (c_completed c)) act5 /\
       res = map (result_of (p_id p)) (filter c_completed act5) /\
       kill_over_limit C w4 cons4 act4 = Ok (w1, cons1, act1) /\
       act1 = map (kill_when over_limit) act4 /\
+      (k <= length (victims_order C act1))%nat /\
+      map c_id vs = firstn k (victims_order C act1) /\
+      act5 = map (kill_if (map c_id vs)) act1 /\
+      (forall id, In id (ids_killed act1 act5) <-> In id (map c_id vs)) /\
       (cons4 == sumQ (map c_mem act4))%Q /\ (cons1 == sumQ (map c_mem act1))%Q /\
       (vs <> [] -> (p_max_ram p < cons1)%Q /\ cf_overcommit C = true) /\
       Forall (fun v => In v act4 /\ c_completed v = false /\
@@ -451,6 +466,72 @@ Example C04_sim_kill_justified_link_forces_real_memory :
     act4 = map (cstep SimCorExamples.Ck) act2 -> In c act4 ->
     (c_mem c == 6)%Q /\ (c_ram c == 10)%Q /\ ~ (c_ram c < c_mem c)%Q.
 Proof. exact AuditRepairFacts.LinkExamples.link_forces_real_memory. Qed.
+
+(* the victim link is what fixes [vs] (audit D P2). Same tick: AuditExamplesD.VsFree satisfied the body as it was
+   before - [vs] mentioned only by [vs <> [] -> ..], the [Forall] and [nth_error vs j = Some c] - with
+   vs = [container 0; container 1] although container 1 is the running list of the pool after the tick. With the
+   conjuncts of the body above (the link, the two kill equations, the victim link, the running list after the tick,
+   the [Forall]): the counter is 0, exactly one victim is taken, [vs] is exactly [container 0], the survivor
+   container 1 is not in it *)
+Example C04_sim_kill_justified_forces_victims :
+  forall i p p' next act2 act4 act1 act5 vs k,
+    nth_error (e_pools (sm_exec SimCorExamples.k0)) i = Some p ->
+    nth_error (e_pools (sm_exec SimCorExamples.k1)) i = Some p' ->
+    act2 = filter (fun c => negb (memb (c_id c) (map su_cid
+                     (filter (fun x => (su_pool x =? Z.of_nat (p_id p))%Z) (tl_susp SimCorExamples.klg0)))))
+                  (p_active p)
+           ++ new_containers next
+                (filter (fun x => (a_pool x =? Z.of_nat (p_id p))%Z) (tl_asgs SimCorExamples.klg0)) ->
+    act4 = map (cstep SimCorExamples.Ck) act2 ->
+    act1 = map (kill_when over_limit) act4 ->
+    (k <= length (victims_order SimCorExamples.Ck act1))%nat ->
+    map c_id vs = firstn k (victims_order SimCorExamples.Ck act1) ->
+    act5 = map (kill_if (map c_id vs)) act1 ->
+    p_active p' = filter (fun c => negb (c_completed c)) act5 ->
+    Forall (fun v => In v act4 /\ c_completed v = false /\ (c_mem v <= c_ram v)%Q /\ (0 < c_mem v)%Q) vs ->
+    next = 0%nat /\ k = 1%nat /\ act4 = [VictimsForced.kc0; VictimsForced.kc1] /\
+    vs = [VictimsForced.kc0] /\ ~ In VictimsForced.kc1 vs /\ In VictimsForced.kc1 (p_active p').
+Proof. exact AuditRepairFacts2.VictimsForced.kill_justified_forces_victims. Qed.
+
+(* ([kc0], [kc1] are the two containers of that tick as they enter the killer, ids 0 and 1) *)
+Example C04_sim_kill_justified_forces_victims_containers :
+  VictimsForced.kact4 = [VictimsForced.kc0; VictimsForced.kc1] /\
+  (c_id VictimsForced.kc0, c_id VictimsForced.kc1) = (0%nat, 1%nat) /\
+  p_active LinkExamples.kp' = [VictimsForced.kc1] /\
+  map r_cid (tl_results SimCorExamples.klg0) = [0%nat] /\ e_next (sm_exec SimCorExamples.k0) = 0%nat.
+Proof. exact AuditRepairFacts2.VictimsForced.real_containers. Qed.
+
+(* [incl res (tl_results lg)] is what fixes [next] (audit D P5). A reachable overbook tick (CounterForced.real_tick:
+   every hypothesis of the theorem holds; the counter of the state is 1; containers 0 and 1 both exceed their
+   allocation and are killed): AuditExamplesD.NextFree satisfied the body as it was before with next = 7, a
+   "container 7" and a result with id 7 that the tick never reported. With the conjuncts of the body above the
+   counter is the counter of the state, the containers that enter the killer are 0 and 1, and the results of the
+   pool are the two results of the log *)
+Example C04_sim_kill_justified_forces_counter :
+  forall i p next act2 act4 act1 act5 vs k res,
+    nth_error (e_pools (sm_exec CounterForced.n1)) i = Some p ->
+    act2 = filter (fun c => negb (memb (c_id c) (map su_cid
+              (filter (fun x => (su_pool x =? Z.of_nat (p_id p))%Z) (tl_susp CounterForced.nlg1))))) (p_active p)
+           ++ new_containers next (filter (fun x => (a_pool x =? Z.of_nat (p_id p))%Z) (tl_asgs CounterForced.nlg1)) ->
+    act4 = map (cstep CounterForced.Cn) act2 -> act1 = map (kill_when over_limit) act4 ->
+    map c_id vs = firstn k (victims_order CounterForced.Cn act1) ->
+    act5 = map (kill_if (map c_id vs)) act1 ->
+    res = map (result_of (p_id p)) (filter c_completed act5) ->
+    incl res (tl_results CounterForced.nlg1) ->
+    next = 1%nat /\ next = e_next (sm_exec CounterForced.n1) /\ map c_id act4 = [0%nat; 1%nat] /\ vs = [] /\
+    map r_cid res = [0%nat; 1%nat] /\ next <> 7%nat.
+Proof. exact AuditRepairFacts2.CounterForced.kill_justified_forces_counter. Qed.
+
+Example C04_sim_kill_justified_forces_counter_tick :
+  (forall x, (cf_rnd CounterForced.Cn x == x)%Q) /\ script_nonneg CounterForced.Cn /\
+  sim_reach CounterForced.Cn AOverbook 0%Z (init_sim CounterForced.Cn 1 10%Z 10%Q) 1%Z CounterForced.n1 /\
+  sim_tick CounterForced.Cn AOverbook 1%Z CounterForced.n1 [0%nat] = Ok (CounterForced.n2, CounterForced.nlg1) /\
+  In CounterForced.nr (tl_results CounterForced.nlg1) /\ r_err CounterForced.nr = true /\
+  e_next (sm_exec CounterForced.n1) = 1%nat /\ e_next (sm_exec CounterForced.n2) = 2%nat /\
+  map (fun r => (r_cid r, r_ops r, r_err r)) (tl_results CounterForced.nlg1)
+    = [(0%nat, [1%nat], true); (1%nat, [0%nat], true)] /\
+  r_cid CounterForced.nr = 0%nat.
+Proof. exact AuditRepairFacts2.CounterForced.real_tick. Qed.
 
 (* [exact] "without overcommit a container that stays within its allocation is never killed" (audit C P1; this
    replaces a statement whose existential container was tied to nothing). A running container [c] of pool [i] that
